@@ -1,10 +1,523 @@
 /-
-  Model module `Import` (driver op `imp`). Import-free apart from RsjModel.* modules.
+  Model of import resolution in `rsjsonnet-front/src/session.rs`
+  (`find_import`, `load_real_file`, the `Callbacks` impl `import` /
+  `import_str` / `import_bin`) together with the way `rsjsonnet/src/main.rs`
+  registers the `-J` directories (`args.jpath.iter().rev()`).
+
+  The file system is a finite map from *real* absolute locations (component
+  lists) to files / directories / symbolic links; `walk` is POSIX path
+  resolution (symlinks spliced in, `..` applied to the resolved directory,
+  at most 40 link expansions = Linux `MAXSYMLINKS`).  `std::path` is modelled
+  as far as the code uses it: `Path::join`, `Path::parent`, `is_absolute`,
+  `display` (= the raw string), `exists` (= `metadata().is_ok()`),
+  `canonicalize` (= `realpath`), `fs::read`.
+
+  Bytes are `Nat` (< 256), paths are `String`s.
 -/
 import RsjModel.Util
+import RsjModel.Utf8
 namespace Rsj.Import
 
-/-- `imp <args...>` : one canonical answer line, or `none` for a malformed request. -/
-def handle (_args : List String) : Option String := none
+/-! ## `std::path` (unix) -/
+
+/-- Split at every `'/'` (always returns at least one segment). -/
+def splitSlash : List Char → List (List Char)
+  | [] => [[]]
+  | c :: cs =>
+    match splitSlash cs with
+    | [] => [[]]
+    | seg :: rest => if c = '/' then [] :: seg :: rest else (c :: seg) :: rest
+
+/-- `Path::is_absolute` / `has_root` on unix. -/
+def isAbs (p : String) : Bool :=
+  match p.toList with
+  | '/' :: _ => true
+  | _ => false
+
+/-- Raw segments after an optional root: `(has_root, segments)`;
+    `"/t//a"` ↦ `(true, ["t", "", "a"])`, `"/"` ↦ `(true, [])`, `""` ↦ `(false, [])`. -/
+def rawSegs (p : String) : Bool × List String :=
+  match p.toList with
+  | '/' :: rest => (true, if rest.isEmpty then [] else (splitSlash rest).map String.ofList)
+  | l => (false, if l.isEmpty then [] else (splitSlash l).map String.ofList)
+
+def renderSegs (root : Bool) (segs : List String) : String :=
+  (if root then "/" else "") ++ "/".intercalate segs
+
+/-- The components the kernel sees (empty segments are skipped by the kernel, `.` too;
+    they are kept here and skipped by `walkSeg`). -/
+def comps (p : String) : List String := (rawSegs p).2
+
+/-- `Components::trim_right` on the reversed segment list (`n` = number of
+    segments left = 1-based position of the head): drop trailing separators and
+    `.` components, but keep a leading `.` of a relative path (a `CurDir`). -/
+def trimRev (root : Bool) : List String → Nat → List String
+  | [], _ => []
+  | s :: rest, n =>
+    if s = "" ∨ (s = "." ∧ (root ∨ n ≠ 1)) then trimRev root rest (n - 1) else s :: rest
+
+def trimRightPath (root : Bool) (segs : List String) : List String :=
+  (trimRev root segs.reverse segs.length).reverse
+
+/-- `Path::parent` (`None` when the path ends in the root or is empty). -/
+def parent (p : String) : Option String :=
+  let (root, segs) := rawSegs p
+  let t := trimRightPath root segs
+  match t.getLast? with
+  | none => none
+  | some _ => some (renderSegs root (trimRightPath root t.dropLast))
+
+/-- `Path::join` / `PathBuf::push` on unix. -/
+def pathJoin (base p : String) : String :=
+  if isAbs p then p
+  else if base.isEmpty then p
+  else if base.toList.getLast? = some '/' then base ++ p
+  else base ++ "/" ++ p
+
+/-! ## The file system -/
+
+inductive Node where
+  | file (bytes : List Nat) (readable : Bool)
+  | dir
+  | link (target : String)
+deriving Repr, DecidableEq
+
+inductive IoErr where
+  | notFound | notDir | isDir | denied | loop
+deriving Repr, DecidableEq
+
+structure FS where
+  /-- real location (components below `/`) ↦ node; `/` itself is a directory -/
+  entries : List (List String × Node)
+  /-- real location of the working directory -/
+  cwd : List String
+deriving Repr
+
+def FS.lookup (fs : FS) (p : List String) : Option Node :=
+  if p = [] then some .dir else (fs.entries.find? (fun e => e.1 = p)).map (·.2)
+
+inductive WalkStep where
+  | done (r : Except IoErr (List String × Node))
+  | follow (cur todo : List String)
+
+/-- Resolve components until the end or the next symbolic link. `cur` is the
+    real location of a directory. -/
+def FS.walkSeg (fs : FS) : List String → List String → WalkStep
+  | cur, [] => .done (.ok (cur, .dir))
+  | cur, c :: rest =>
+    if c = "" ∨ c = "." then fs.walkSeg cur rest
+    else if c = ".." then fs.walkSeg cur.dropLast rest
+    else
+      match fs.lookup (cur ++ [c]) with
+      | none => .done (.error .notFound)
+      | some .dir => fs.walkSeg (cur ++ [c]) rest
+      | some (.file b r) =>
+        if rest.isEmpty then .done (.ok (cur ++ [c], .file b r)) else .done (.error .notDir)
+      | some (.link t) => .follow (if isAbs t then [] else cur) (comps t ++ rest)
+
+/-- Path resolution with at most `fuel` link expansions (`ELOOP` beyond). -/
+def FS.walk (fs : FS) : Nat → List String → List String → Except IoErr (List String × Node)
+  | fuel, cur, todo =>
+    match fs.walkSeg cur todo with
+    | .done r => r
+    | .follow cur' todo' =>
+      match fuel with
+      | 0 => .error .loop
+      | fuel + 1 => fs.walk fuel cur' todo'
+
+def MAXSYMLINKS : Nat := 40
+
+/-- `stat(2)`-style resolution of a path string (the empty path is `ENOENT`). -/
+def FS.resolve (fs : FS) (p : String) : Except IoErr (List String × Node) :=
+  if p.isEmpty then .error .notFound
+  else fs.walk MAXSYMLINKS (if isAbs p then [] else fs.cwd) (comps p)
+
+/-- `Path::exists` -/
+def FS.exists (fs : FS) (p : String) : Bool :=
+  match fs.resolve p with
+  | .ok _ => true
+  | .error _ => false
+
+/-- `Path::canonicalize`, displayed. -/
+def FS.canonicalize (fs : FS) (p : String) : Except IoErr String :=
+  match fs.resolve p with
+  | .ok (real, _) => .ok (renderSegs true real)
+  | .error e => .error e
+
+/-- `std::fs::read` -/
+def FS.read (fs : FS) (p : String) : Except IoErr (List Nat) :=
+  match fs.resolve p with
+  | .ok (_, .file b true) => .ok b
+  | .ok (_, .file _ false) => .error .denied
+  | .ok (_, .dir) => .error .isDir
+  | .ok (_, .link _) => .error .loop   -- unreachable: `walk` never returns a link
+  | .error e => .error e
+
+/-! ## The session -/
+
+structure Source where
+  /-- `SrcManager` repr_path = the `this_file` given to `load_source` = `std.thisFile` -/
+  reprPath : String
+  /-- `source_paths` entry (absent for virtual files) -/
+  realPath : Option String
+deriving Repr, DecidableEq
+
+structure Session where
+  /-- `search_paths`, in the order `add_search_path` was called -/
+  searchPaths : List String
+  /-- index = source id (the stdlib's own source is not counted) -/
+  sources : List Source
+  /-- `source_cache`: canonical path ↦ thunk; a real file's thunk is identified with its source index -/
+  cache : List (String × Nat)
+  /-- ghost log: canonical paths whose `load_source` succeeded inside `load_real_file`, in order -/
+  loads : List String
+deriving Repr
+
+/-- `Session::new` followed by main.rs's `for path in args.jpath.iter().rev() { add_search_path }`. -/
+def Session.ofJpaths (jpaths : List String) : Session :=
+  { searchPaths := jpaths.reverse, sources := [], cache := [], loads := [] }
+
+inductive ImpErr where
+  /-- "import .. not found in search path" -/
+  | notFound
+  /-- "file .. does not exist" (`canonicalize` → `NotFound`) -/
+  | notExist
+  /-- "failed to canonicalize path" -/
+  | canon (e : IoErr)
+  /-- "failed to read" -/
+  | read (e : IoErr)
+  /-- `load_source` failed (lex / parse / analyze error) -/
+  | load
+deriving Repr, DecidableEq
+
+def cacheGet (cache : List (String × Nat)) (k : String) : Option Nat :=
+  match cache with
+  | [] => none
+  | (k', v) :: rest => if k' = k then some v else cacheGet rest k
+
+/-- `SessionInner::load_real_file`. `parses data` = `load_source` succeeds on `data`. -/
+def loadRealFile (fs : FS) (parses : List Nat → Bool) (s : Session) (path : String) :
+    Session × Except ImpErr Nat :=
+  match fs.canonicalize path with
+  | .error .notFound => (s, .error .notExist)
+  | .error e => (s, .error (.canon e))
+  | .ok norm =>
+    match cacheGet s.cache norm with
+    | some t => (s, .ok t)
+    | none =>
+      match fs.read path with
+      | .error e => (s, .error (.read e))
+      | .ok data =>
+        let id := s.sources.length
+        let s1 := { s with sources := s.sources ++ [{ reprPath := path, realPath := some path }] }
+        if parses data then
+          ({ s1 with cache := (norm, id) :: s1.cache, loads := s1.loads ++ [norm] }, .ok id)
+        else (s1, .error .load)
+
+/-- `SessionInner::load_virt_file` (never cached, no `source_paths` entry). -/
+def loadVirtFile (parses : List Nat → Bool) (s : Session) (reprPath : String) (data : List Nat) :
+    Session × Option Nat :=
+  let id := s.sources.length
+  let s1 := { s with sources := s.sources ++ [{ reprPath := reprPath, realPath := none }] }
+  if parses data then (s1, some id) else (s1, none)
+
+/-- Directory of the importing source: `source_paths.get(from_src).and_then(|p| p.parent())`. -/
+def fromDir (s : Session) (fromSrc : Nat) : Option String :=
+  match s.sources[fromSrc]? with
+  | some src =>
+    match src.realPath with
+    | some p => parent p
+    | none => none
+  | none => none
+
+/-- The base directories `find_import` tries, in order. -/
+def baseDirs (s : Session) (fromSrc : Nat) : List String :=
+  (fromDir s fromSrc).toList ++ s.searchPaths
+
+/-- Candidate full paths in the order `find_import` tests them. -/
+def candidates (s : Session) (fromSrc : Nat) (path : String) : List String :=
+  if isAbs path then [path] else (baseDirs s fromSrc).map (fun b => pathJoin b path)
+
+/-- `SessionInner::find_import` -/
+def findImport (fs : FS) (s : Session) (fromSrc : Nat) (path : String) : Option String :=
+  if isAbs path then
+    if fs.exists path then some path else none
+  else
+    ((baseDirs s fromSrc).map (fun b => pathJoin b path)).find? (fun full => fs.exists full)
+
+/-- `Callbacks::import` -/
+def doImport (fs : FS) (parses : List Nat → Bool) (s : Session) (fromSrc : Nat) (path : String) :
+    Session × Except ImpErr Nat :=
+  match findImport fs s fromSrc path with
+  | none => (s, .error .notFound)
+  | some full => loadRealFile fs parses s full
+
+/-- `Callbacks::import_bin` (the session is not changed: no cache, no source). -/
+def doImportBin (fs : FS) (s : Session) (fromSrc : Nat) (path : String) : Except ImpErr (List Nat) :=
+  match findImport fs s fromSrc path with
+  | none => .error .notFound
+  | some full =>
+    match fs.read full with
+    | .error e => .error (.read e)
+    | .ok data => .ok data
+
+/-- Result of `import_str`: scalar values of the text; `panic` = the decoder's
+    impossible outcome (proved unreachable for bytes < 256). -/
+inductive StrRes where
+  | ok (chars : List Nat)
+  | err (e : ImpErr)
+  | panic
+deriving Repr, DecidableEq
+
+/-- `Callbacks::import_str`: `String::from_utf8_lossy` of the bytes. -/
+def doImportStr (fs : FS) (s : Session) (fromSrc : Nat) (path : String) : StrRes :=
+  match doImportBin fs s fromSrc path with
+  | .error e => .err e
+  | .ok data =>
+    match Rsj.Utf8.lossyModel data with
+    | some cs => .ok cs
+    | none => .panic
+
+/-! ### Sequences of import operations (for the load-once invariant) -/
+
+structure ImportOp where
+  fromSrc : Nat
+  path : String
+deriving Repr
+
+def runImports (fs : FS) (parses : List Nat → Bool) : Session → List ImportOp → Session
+  | s, [] => s
+  | s, op :: rest => runImports fs parses (doImport fs parses s op.fromSrc op.path).1 rest
+
+/-! ## Evaluating a tree of "node" files (the tie to the real binary)
+
+  Every library file of a generated tree has the shape
+  `std.trace("loaded:<id>", {id: "<id>", this: std.thisFile, r: [op, op, ...]})`
+  with `op` one of `import p`, `importstr p`, `importbin p`, one per line.
+  `Prog` is that description; the evaluator below follows the deep (depth-first,
+  left-to-right) evaluation order of `eval_value` and memoises thunks.
+-/
+
+inductive Kind where
+  | code | str | bin
+deriving Repr, DecidableEq
+
+structure Prog where
+  id : String
+  ops : List (Kind × String)
+deriving Repr
+
+inductive Val where
+  | node (id : String) (thisFile : String) (r : List Val)
+  | str (chars : List Nat)
+  | bin (bytes : List Nat)
+deriving Repr
+
+inductive EvalErr where
+  /-- import failure at op number `idx` of the source with repr path `file` -/
+  | imp (e : ImpErr) (file : String) (idx : Nat)
+  /-- a thunk is reached again while it (or its deep value) is being evaluated:
+      "infinite recursion" / "stack overflow" -/
+  | cycle
+  | panic
+  | fuel
+deriving Repr
+
+structure EvalState where
+  session : Session
+  /-- thunks already evaluated, with their deep value -/
+  memo : List (Nat × Val)
+  /-- ids traced so far (one `TRACE: loaded:<id>` line each), in order -/
+  traces : List String
+deriving Repr
+
+def memoGet (memo : List (Nat × Val)) (t : Nat) : Option Val :=
+  match memo with
+  | [] => none
+  | (k, v) :: rest => if k = t then some v else memoGet rest t
+
+/-- The program of a loaded real source: found through the bytes of the file it was read from. -/
+def progOf (progs : List (List Nat × Prog)) (data : List Nat) : Option Prog :=
+  match progs with
+  | [] => none
+  | (d, p) :: rest => if d = data then some p else progOf rest data
+
+/-- Evaluate thunk `t` (a source index) deeply. `stack` = thunks being evaluated. -/
+def evalThunk (fs : FS) (progs : List (List Nat × Prog)) :
+    Nat → List Nat → EvalState → Nat → EvalState × Except EvalErr Val
+  | 0, _, st, _ => (st, .error .fuel)
+  | fuel + 1, stack, st, t =>
+    match memoGet st.memo t with
+    | some v => (st, .ok v)
+    | none =>
+      if stack.contains t then (st, .error .cycle)
+      else
+        match st.session.sources[t]? with
+        | none => (st, .error .panic)
+        | some src =>
+          -- the bytes the source was loaded from (the file system does not change during a run)
+          let data : List Nat := match src.realPath with
+            | some p => (match fs.read p with | .ok d => d | .error _ => [])
+            | none => []
+          match progOf progs data with
+          | none => (st, .error .panic)
+          | some prog =>
+            let st0 := { st with traces := st.traces ++ [prog.id] }
+            let step := fun (acc : EvalState × Except EvalErr (List Val) × Nat) (op : Kind × String) =>
+              match acc with
+              | (st1, .error e, i) => (st1, .error e, i)
+              | (st1, .ok vals, i) =>
+                match op.1 with
+                | .code =>
+                  match doImport fs (fun d => (progOf progs d).isSome) st1.session t op.2 with
+                  | (s2, .error e) => ({ st1 with session := s2 }, .error (.imp e src.reprPath i), i + 1)
+                  | (s2, .ok t') =>
+                    match evalThunk fs progs fuel (t :: stack) { st1 with session := s2 } t' with
+                    | (st2, .error e) => (st2, .error e, i + 1)
+                    | (st2, .ok v) => (st2, .ok (vals ++ [v]), i + 1)
+                | .str =>
+                  match doImportStr fs st1.session t op.2 with
+                  | .err e => (st1, .error (.imp e src.reprPath i), i + 1)
+                  | .panic => (st1, .error .panic, i + 1)
+                  | .ok cs => (st1, .ok (vals ++ [.str cs]), i + 1)
+                | .bin =>
+                  match doImportBin fs st1.session t op.2 with
+                  | .error e => (st1, .error (.imp e src.reprPath i), i + 1)
+                  | .ok bs => (st1, .ok (vals ++ [.bin bs]), i + 1)
+            match prog.ops.foldl step (st0, .ok [], 0) with
+            | (st3, .error e, _) => (st3, .error e)
+            | (st3, .ok vals, _) =>
+              let v := Val.node prog.id src.reprPath vals
+              ({ st3 with memo := (t, v) :: st3.memo }, .ok v)
+
+/-- `rsjsonnet -J j1 -J j2 ... <root>`: load the root file, evaluate it deeply. -/
+def runRoot (fs : FS) (progs : List (List Nat × Prog)) (jpaths : List String) (root : String) :
+    EvalState × Except EvalErr Val :=
+  let s0 := Session.ofJpaths jpaths
+  match loadRealFile fs (fun d => (progOf progs d).isSome) s0 root with
+  | (s1, .error e) => ({ session := s1, memo := [], traces := [] }, .error (.imp e "" 0))
+  | (s1, .ok t) =>
+    evalThunk fs progs (fs.entries.length + 2) [] { session := s1, memo := [], traces := [] } t
+
+/-! ## Driver -/
+
+def hexStr (s : String) : String := hexEnc (s.toUTF8.toList.map (·.toNat))
+
+def unhexStr (h : String) : Option String := do
+  let bs ← hexDecode h
+  let ba := ByteArray.mk (bs.map (fun b => UInt8.ofNat b)).toArray
+  String.fromUTF8? ba
+
+def showIoErr : IoErr → String
+  | .notFound => "ENOENT" | .notDir => "ENOTDIR" | .isDir => "EISDIR" | .denied => "EACCES" | .loop => "ELOOP"
+
+def showImpErr : ImpErr → String
+  | .notFound => "notfound"
+  | .notExist => "notexist"
+  | .canon e => "canon-" ++ showIoErr e
+  | .read e => "read-" ++ showIoErr e
+  | .load => "load"
+
+def showVals (f : Val → String) : List Val → String
+  | [] => ""
+  | [v] => f v
+  | v :: rest => f v ++ ";" ++ showVals f rest
+
+def showVal : Val → String
+  | .node id this r => "N(" ++ hexStr id ++ "," ++ hexStr this ++ ",[" ++ showValList r ++ "])"
+  | .str cs => "S(" ++ hexEnc (cs.flatMap utf8EncodeChar) ++ ")"
+  | .bin bs => "B(" ++ hexEnc bs ++ ")"
+where
+  showValList : List Val → String
+    | [] => ""
+    | [v] => showVal v
+    | v :: rest => showVal v ++ ";" ++ showValList rest
+
+def showEvalErr : EvalErr → String
+  | .imp e file idx => "imp " ++ showImpErr e ++ " " ++ hexStr file ++ " " ++ toString idx
+  | .cycle => "cycle"
+  | .panic => "panic"
+  | .fuel => "fuel"
+
+/-- `/a/b` ↦ `["a","b"]` for entry locations given as canonical absolute strings. -/
+def realOf (p : String) : List String := (comps p).filter (· ≠ "")
+
+def parseKind : String → Option Kind
+  | "c" => some .code | "s" => some .str | "b" => some .bin | _ => none
+
+/-- `<kind>/<hexpath>` -/
+def parseOp (s : String) : Option (Kind × String) :=
+  match s.splitOn "/" with
+  | [k, p] => do pure (← parseKind k, ← unhexStr p)
+  | _ => none
+
+/-- Request tokens:
+    `cwd=<hexpath>` `root=<hexpath>` `J=<hexpath>` (repeatable, command-line order)
+    `F:<hexloc>:<hexbytes>[:<hexid>[:<op>,<op>,...]]`  readable file (with program when importable; `<op>` = `<c|s|b>/<hexpath>`)
+    `U:<hexloc>:<hexbytes>`  unreadable file   `D:<hexloc>`  directory   `L:<hexloc>:<hextarget>`  symlink
+    Sub-commands (first token): `run` (whole evaluation), `find <hexfrom-realpath|-> <hexpath>`,
+    `parent <hexpath>`, `join <hexbase> <hexpath>`. -/
+structure Req where
+  cwd : String := "/"
+  root : String := ""
+  jpaths : List String := []
+  entries : List (List String × Node) := []
+  progs : List (List Nat × Prog) := []
+
+def parseTok (r : Req) (tok : String) : Option Req :=
+  match tok.splitOn "=" with
+  | ["cwd", h] => do pure { r with cwd := ← unhexStr h }
+  | ["root", h] => do pure { r with root := ← unhexStr h }
+  | ["J", h] => do pure { r with jpaths := r.jpaths ++ [← unhexStr h] }
+  | _ =>
+    match tok.splitOn ":" with
+    | ["D", loc] => do pure { r with entries := r.entries ++ [(realOf (← unhexStr loc), .dir)] }
+    | ["L", loc, tgt] => do
+      pure { r with entries := r.entries ++ [(realOf (← unhexStr loc), .link (← unhexStr tgt))] }
+    | ["U", loc, bytes] => do
+      pure { r with entries := r.entries ++ [(realOf (← unhexStr loc), .file (← hexDecode bytes) false)] }
+    | ["F", loc, bytes] => do
+      pure { r with entries := r.entries ++ [(realOf (← unhexStr loc), .file (← hexDecode bytes) true)] }
+    | ["F", loc, bytes, id] => do
+      let b ← hexDecode bytes
+      pure { r with entries := r.entries ++ [(realOf (← unhexStr loc), .file b true)],
+                    progs := r.progs ++ [(b, { id := ← unhexStr id, ops := [] })] }
+    | ["F", loc, bytes, id, ops] => do
+      let b ← hexDecode bytes
+      let os ← (ops.splitOn ",").mapM parseOp
+      pure { r with entries := r.entries ++ [(realOf (← unhexStr loc), .file b true)],
+                    progs := r.progs ++ [(b, { id := ← unhexStr id, ops := os })] }
+    | _ => none
+
+def parseReq (toks : List String) : Option Req :=
+  toks.foldlM parseTok {}
+
+def Req.fs (r : Req) : FS := { entries := r.entries, cwd := realOf r.cwd }
+
+def handle (args : List String) : Option String :=
+  match args with
+  | "parent" :: [h] => do
+    let p ← unhexStr h
+    match parent p with
+    | none => pure "none"
+    | some q => pure ("some " ++ hexStr q)
+  | "join" :: [a, b] => do pure (hexStr (pathJoin (← unhexStr a) (← unhexStr b)))
+  | "find" :: fromReal :: path :: toks => do
+    let r ← parseReq toks
+    let p ← unhexStr path
+    let srcs : List Source ← if fromReal = "-" then pure [{ reprPath := "<cmdline>", realPath := none }]
+      else do let f ← unhexStr fromReal; pure [{ reprPath := f, realPath := some f }]
+    let s : Session := { Session.ofJpaths r.jpaths with sources := srcs }
+    match findImport r.fs s 0 p with
+    | none => pure "none"
+    | some full => pure ("some " ++ hexStr full)
+  | "run" :: toks => do
+    let r ← parseReq toks
+    let (st, res) := runRoot r.fs r.progs r.jpaths r.root
+    let tr := "[" ++ ",".intercalate (st.traces.map hexStr) ++ "]"
+    match res with
+    | .ok v => pure ("ok " ++ showVal v ++ " " ++ tr)
+    | .error e => pure ("err " ++ showEvalErr e ++ " " ++ tr)
+  | _ => none
 
 end Rsj.Import
